@@ -268,6 +268,10 @@ def correspond(ctx, layouts):
             raise fv.InfraError('driver: %s for %s' % (ans, line[:100]))
         if ans == 'none':
             if impl_ok:
+                w0 = skip_case(name, o1, b0)
+                if w0 in ('content-not-understood', 'revert-to-default-flag'):
+                    skipped[w0] = skipped.get(w0, 0) + 1
+                    continue
                 if has_str(items) and any(x >= 0x80 for x in b0):
                     skipped['non-ascii-text'] = skipped.get('non-ascii-text', 0) + 1
                     continue
@@ -290,7 +294,7 @@ def correspond(ctx, layouts):
             cmp_items(items, m_val, o1, diffs, name, {})
         except Exception as e:
             diffs.append('attribute walk failed: %s: %s' % (type(e).__name__, e))
-        if diffs and why != 'revert-to-default-flag':
+        if diffs and why not in ('revert-to-default-flag', 'event-description-sync-unescape'):
             ctx.disagree('%s: attributes differ (offset %d): %s' % (name, off, '; '.join(diffs[:4])), replay)
             continue
         ctx.cov['traces_validated_against_impl'] += 1
@@ -305,6 +309,13 @@ def correspond(ctx, layouts):
                 ctx.disagree('%s: impl pack() raises %s, model builds' % (name, type(e).__name__), replay)
             continue
         m_b = b'' if m_build == '-' else (None if m_build == 'none' else bytes.fromhex(m_build))
+        if m_b is not None and m_b != b1 and len(m_b) == len(b1):
+            # the model writes the canonical quiet NaN, Python keeps the NaN payload: equal iff the model reads
+            # pack()'s bytes as the same value tree
+            again = ctx.driver(['layparse %s 0 %s' % (name, b1.hex() or '-')])[0]
+            if again == '%d %s' % (len(b1), parts[1]) and 'nan' in parts[1]:
+                skipped['nan-payload-kept-by-impl'] = skipped.get('nan-payload-kept-by-impl', 0) + 1
+                m_b = b1
         if m_b is None or m_b != b1:
             ctx.disagree('%s: pack() %s != build %s' % (name, b1.hex()[:80], m_build[:80]), replay)
             continue
@@ -325,12 +336,21 @@ def correspond(ctx, layouts):
                 ok = False
             if fits:
                 exp = bytes.fromhex(m_into) if m_into not in ('none', '-') else None
+                if exp is not None and len(exp) == len(buf):     # same NaN-payload allowance as above
+                    exp = exp[:off] + b1 + exp[off + len(b1):] if bytes.fromhex(m_build if m_build not in ('-', 'none') else '') != b1 else exp
                 if not ok or r != len(b1) or exp is None or bytes(buf2) != exp:
                     ctx.disagree('%s: pack(buffer, %d, return_buffer=False) -> %s differs from buildInto' % (
                         name, off, r if ok else 'raises'), replay)
                     continue
         if m_re != 'same:%d' % len(b1):
-            ctx.disagree('%s: model re-parse of its own serialisation: %s' % (name, m_re), replay)
+            # the model predicts that this input breaks the round trip (a float codec is not stable here):
+            # the oracle must see it on the implementation too
+            res = O.roundtrip(subj, b0, (0,), O.random.Random(5))
+            if not res[1]:
+                ctx.disagree('%s: model re-parse of its own serialisation: %s, but the implementation round-trips' % (name, m_re), replay)
+            for v in res[1]:
+                ctx.violation(O.signature(v[3] if len(v) > 3 else name, v[0], v[1]), v[2], {'subject': name, 'b0': b0.hex(), 'offsets': [0]})
+            ctx.count('corr_model_predicts_violation')
             continue
         ctx.count('corr_full')
         if len(ctx.cov['samples']) < 3 and len(buf) < 60:
@@ -602,7 +622,7 @@ def check(ctx):
     ctx._c01_layouts = layouts
     ctx.prove(MODULES)
     try:
-        run(ctx, 2500 if ctx.thorough else 420)
+        run(ctx, 2500 if ctx.thorough else 800)
     except fv.InfraError:
         if not ctx.proof_failures:
             raise
